@@ -398,6 +398,10 @@ func rlScripted(kind string) []rlCfg {
 		// (the reply is discarded), with and without a send deadline; the socket keeps serving others
 		{Kind: kind, Opts: []rlCtxOpt{d, d}, TTL: 8, SQ: 1, RQ: 8, Steps: []string{"conngated", "req p1 1", "req p1 1", "req p1 1", "recv c0", "send c0", "recv c0", "send c0", "recv c0", "send c0", "drop p1", "conn", "req p2 2", "recv c1", "send c1", "recv c0"}},
 		{Kind: kind, Opts: []rlCtxOpt{{SendExp: 5 * sec}, d}, TTL: 8, SQ: 0, RQ: 8, Steps: []string{"conngated", "req p1 1", "req p1 1", "recv c0", "send c0", "recv c0", "send c0", "adv 1s", "drop p1", "adv 1s", "conn", "req p2 1", "recv c0", "send c0", "adv 10s"}},
+		// RESPONDENT: the receive queue is replaced while it is full and a receiver holds the next survey: what was
+		// queued is gone, the held one goes into the new queue, nobody is disconnected, the waiting Recv goes on
+		{Kind: kind, Opts: []rlCtxOpt{d, d}, TTL: 8, SQ: 2, RQ: 1, Steps: []string{"conn", "req p1 1", "req p1 2", "req p1 1", "rq 3", "recv c0", "send c0", "recv c1", "send c1", "recv c0", "rq 0", "req p1 1", "send c0"}},
+		{Kind: kind, Opts: []rlCtxOpt{d, d}, TTL: 8, SQ: 2, RQ: 0, Steps: []string{"conn", "conn", "req p1 1", "req p2 1", "rq 2", "recv c0", "recv c1", "send c1", "send c0", "recv c0", "rq 1", "req p2 2", "rq 0", "recv c1"}},
 		// a context opened while the socket's own context holds a request starts empty: it has nothing to answer
 		{Kind: kind, Opts: []rlCtxOpt{d, d, d}, TTL: 8, SQ: 2, RQ: 2, Lazy: true, Steps: []string{"conn", "req p1 2", "recv c0", "send c1", "recv c2", "req p1 1", "send c2", "send c0", "send c1", "recv c1"}},
 		// a Send from another goroutine while the context's Recv is waiting: nothing to answer (the last request was given up by that Recv)
@@ -446,11 +450,16 @@ func rlRandom(kind string, rng *rand.Rand) rlCfg {
 		if rng.Intn(50) == 0 {
 			opts = append(opts, "sclose")
 		}
+		if kind == "respondent" && rng.Intn(8) == 0 {
+			opts = append(opts, "rq", "rq")
+		}
 		o := opts[rng.Intn(len(opts))]
 		cx := fmt.Sprintf("c%d", rng.Intn(nctx))
 		switch o {
 		case "conn", "conngated":
 			np++
+		case "rq":
+			o += fmt.Sprintf(" %d", rng.Intn(4))
 		case "send", "recv":
 			o += " " + cx
 		case "cclose":
